@@ -48,6 +48,14 @@ ObservedIds(post) ==
             LET o == post[VecOrder[i]] IN
             Ids(o.el) \o [j \in 1..Len(o.held) |-> o.held[j][1]] \o Ids(o.kept)]) \o Ids(post.ext)
 
+(* what ObservedIds would be for a model state (the observable places) *)
+ExpectedIds(s) ==
+  Concat([i \in 1..Len(VecOrder) |->
+            LET V == s.v[VecOrder[i]] IN
+            IF V.h.k = "tmp" THEN <<V.h.held[1]>>
+            ELSE IF V.h.k \in {"range", "items"} THEN Ids(V.h.out)
+            ELSE Ids(V.el)]) \o Ids(s.ext)
+
 (* places of all identities in the observed world must be distinct, well-formed and not known dead/leaked *)
 ObsWF(st0, post) ==
   LET ids == ObservedIds(post) IN
@@ -77,12 +85,16 @@ CapViol(stb, a, post) ==
 AdoptCaps(s2, post) ==
   [s2 EXCEPT !.v = [w \in Vecs |-> IF Excl(post[w].hk) THEN s2.v[w] ELSE [s2.v[w] EXCEPT !.cap = post[w].cap]]]
 
+(* zero-sized values have no identity: after a step that may lose elements only a marker records that the count of *)
+(* live values is no longer predictable (A9)                                                                     *)
+LossMark == IF Cfg.ids THEN {} ELSE {-1}
+
 (* adopt the observed contents (after a step whose outcome the contract leaves open) *)
 AdoptAll(s2, post, gone) ==
   LET s3 == [s2 EXCEPT !.v = [w \in Vecs |-> IF Excl(post[w].hk) THEN s2.v[w]
                                              ELSE [s2.v[w] EXCEPT !.el = post[w].el, !.cap = post[w].cap]],
                        !.ext = post.ext]
-  IN [s3 EXCEPT !.leaked = @ \cup (gone \ IdSet(AllElems(s3)))]
+  IN [s3 EXCEPT !.leaked = @ \cup (gone \ IdSet(AllElems(s3))) \cup LossMark]
 
 ---------------------------------------------------------------------------
 (* A3: what may be observed after forgetting a removal handle or a range iterator of vector a.v *)
@@ -105,38 +117,82 @@ ForgetOk(stb, a, x, post) ==
      /\ post.ext = x.st.ext
 
 (* A4: after a panic that the contract allows to lose elements: everything visible is alive, intact, once *)
+KnownIds(stb, ev) == IdSet(AllElems(stb)) \cup ToSet(ev.born) \cup {ev.clones[j][2] : j \in 1..Len(ev.clones)}
 PanicOk(stb, a, ev) ==
-  LET known == IdSet(AllElems(stb)) \cup ToSet(ev.born) \cup {ev.clones[j][2] : j \in 1..Len(ev.clones)}
+  LET known == KnownIds(stb, ev)
       ids == ObservedIds(ev.post) IN
-  /\ \A w \in Vecs : ~Excl(ev.post[w].hk) \/ ev.post[w].hk = "items"
-  /\ (Cfg.ids => \A j \in 1..Len(ids) : ids[j] \in known /\ ids[j] \notin ToSet(ev.drops))
+  (Cfg.ids => \A j \in 1..Len(ids) : ids[j] \in known /\ ids[j] \notin ToSet(ev.drops))
+
+(* the state the model continues from after a step whose outcome is only constrained by A4: handles that survive   *)
+(* keep the structure the contract gives them, everything observable is adopted, what disappeared without a drop   *)
+(* callback is leaked                                                                                              *)
+AdoptAfterPanic(stb, x, ev) ==
+  LET post == ev.post
+      s3 == [x.st EXCEPT !.v = [w \in Vecs |-> IF Excl(x.st.v[w].h.k) THEN x.st.v[w]
+                                                ELSE [x.st.v[w] EXCEPT !.el = post[w].el, !.cap = post[w].cap]],
+                         !.ext = post.ext, !.leaked = stb.leaked]
+  IN [s3 EXCEPT !.leaked = @ \cup ((KnownIds(stb, ev) \ ToSet(ev.drops)) \ IdSet(AllElems(s3))) \cup LossMark]
 
 ---------------------------------------------------------------------------
+IsFault(ev) == "fault" \in DOMAIN ev
+DropLive(stb, ev) ==
+  ~Cfg.drop \/ ~Cfg.ids \/
+  (\A j \in 1..Len(ev.drops) :
+      /\ ev.drops[j] \in KnownIds(stb, ev)
+      /\ Count(ev.drops, ev.drops[j]) = 1)
+TdViol(s2, ev, extra) ==
+  IF ev.td.skip \/ ~Cfg.drop THEN {}
+  ELSE IF ~Cfg.ids
+  THEN (* zero-sized values: accounting by count (A9) *)
+       IF s2.leaked = {} /\ (ev.td.zst # 0 \/ Len(ev.td.drops) # Len(AllElems(s2)))
+       THEN {V1(<<"C03">> \o extra, "nothing_left")} ELSE {}
+  ELSE (IF ToSet(ev.td.live) # s2.leaked THEN {V1(<<"C03">> \o extra, "nothing_left")} ELSE {})
+       \cup (IF ~BagEq(ev.td.drops, Ids(AllElems(s2))) THEN {V1(<<"C03">> \o extra, "teardown_drops_once")} ELSE {})
+
+(* C06: the k-th invocation of user code inside the action panicked *)
+JudgeFault(stb, ev) ==
+  LET a == ev.act
+      x == Apply(stb, a, ev.born)
+      post == ev.post
+      P == <<"C06">>
+      hkOk == \A w \in Vecs : post[w].hk = x.st.v[w].h.k
+      wf == ObsWF(stb, post)
+      pOk == PanicOk(stb, a, ev)
+      dl == DropLive(stb, ev)
+      viol0 == (IF ~ev.fired THEN {V1(<<"T00">>, "fault_did_not_fire")} ELSE {})
+          \cup (IF ~hkOk THEN {V1(<<"T00">>, "fault_handle_structure")} ELSE {})
+          \cup (IF ~wf THEN {V1(P \o <<"C03">>, "visible_live_intact_once")} ELSE {})
+          \cup (IF ~pOk THEN {V1(P \o <<"C03">>, "panic_post")} ELSE {})
+          \cup (IF ~dl THEN {V1(P \o <<"C03">>, "no_double_drop")} ELSE {})
+      diverged == ~ev.fired \/ ~hkOk \/ ~wf \/ ~pOk
+      s2 == IF diverged THEN stb ELSE AdoptAfterPanic(stb, x, ev)
+  IN [st |-> s2, bad |-> diverged, viol |-> viol0 \cup (IF diverged THEN {} ELSE TdViol(s2, ev, P))]
+
 Judge(stb, ev) ==
   LET a == ev.act IN
   IF ~Applicable(stb, a)
   THEN [st |-> stb, bad |-> TRUE, viol |-> {V1(<<"T00">>, "not_applicable")}]
+  ELSE IF IsFault(ev) THEN JudgeFault(stb, ev)
   ELSE
   LET x    == Apply(stb, a, ev.born)
       post == ev.post
-      P    == PropsOf(a, x.lat)
+      P    == PropsOf(a, x.lat) \o (IF "dyn" \in DOMAIN ev THEN <<"C06">> ELSE <<>>)
       wf   == ObsWF(stb, post)
       stOk == CASE x.lat = "exact"  -> (\A w \in Vecs : VecObsOk(x.st.v[w], post[w])) /\ post.ext = x.st.ext
                 [] x.lat = "forget" -> ForgetOk(stb, a, x, post)
-                [] x.lat = "panic"  -> PanicOk(stb, a, ev)
+                [] x.lat = "panic"  -> PanicOk(stb, a, ev) /\ (\A w \in Vecs : post[w].hk = x.st.v[w].h.k)
       resOk  == ev.res = x.res
       retOk  == x.lat # "exact" \/ ev.res # "ok" \/ ev.ret = x.ret
       dropOk == ~Cfg.drop \/ x.lat = "panic" \/ BagEq(ev.drops, x.drops)
-      dropLive == ~Cfg.drop \/ ~Cfg.ids \/
-                  (\A j \in 1..Len(ev.drops) :
-                      /\ ev.drops[j] \in IdSet(AllElems(stb)) \cup ToSet(ev.born)
-                      /\ Count(ev.drops, ev.drops[j]) = 1)
+      dropLive == DropLive(stb, ev)
       hintOk == x.hint = -1 \/ (ev.hint[1] = x.hint /\ ev.hint[2] = x.hint /\ ev.hint[3] = x.hint)
       typeOk == \A j \in 1..Len(ev.note) : ev.note[j] # "badtype"
       viol0 ==
            (IF ~resOk  THEN {V1(P, "result")} ELSE {})
       \cup (IF ~stOk   THEN {V1(P, IF x.lat = "exact" THEN "elems" ELSE IF x.lat = "forget" THEN "forget_post" ELSE "panic_post")} ELSE {})
       \cup (IF ~wf     THEN {V1(<<"C03">> \o P, "single_place")} ELSE {})
+      \cup (IF x.lat = "exact" /\ ~stOk /\ ~BagEq(ObservedIds(post), ExpectedIds(x.st))
+            THEN {V1(<<"C03">> \o P, "elements_lost_or_duplicated")} ELSE {})
       \cup (IF ~retOk  THEN {V1(P \o (IF a.op \in {"get", "mutate", "hmutate", "iter_next"} THEN <<"C13">> ELSE <<>>), "returned")} ELSE {})
       \cup (IF ~dropOk THEN {V1(<<"C03">> \o P, "drops_match")} ELSE {})
       \cup (IF ~dropLive THEN {V1(<<"C03">> \o P, "drop_once")} ELSE {})
@@ -147,12 +203,10 @@ Judge(stb, ev) ==
       gone == IdSet(AllElems(stb)) \cup ToSet(ev.born)
       s2 == IF diverged THEN stb
             ELSE IF x.lat = "exact" THEN AdoptCaps(x.st, post)
+            ELSE IF x.lat = "panic" THEN AdoptAfterPanic(stb, x, ev)
             ELSE AdoptAll([x.st EXCEPT !.leaked = stb.leaked], post, gone \ ToSet(ev.drops))
       capv == IF diverged THEN {} ELSE CapViol(stb, a, post)
-      (* teardown: everything still owned is destroyed exactly once, only leaked identities stay alive *)
-      tdv == IF diverged \/ ~Cfg.drop \/ ~Cfg.ids THEN {}
-             ELSE (IF ToSet(ev.td.live) # s2.leaked THEN {V1(<<"C03">> \o (IF IsForget(a) THEN <<"C07">> ELSE <<>>), "nothing_left")} ELSE {})
-                  \cup (IF ~BagEq(ev.td.drops, Ids(AllElems(s2))) THEN {V1(<<"C03">>, "teardown_drops_once")} ELSE {})
+      tdv == IF diverged THEN {} ELSE TdViol(s2, ev, (IF IsForget(a) THEN <<"C07">> ELSE <<>>) \o (IF "dyn" \in DOMAIN ev THEN <<"C06">> ELSE <<>>))
   IN [st |-> s2, bad |-> diverged, viol |-> viol0 \cup capv \cup tdv]
 
 ---------------------------------------------------------------------------
